@@ -20,7 +20,9 @@ def main():
     from .. import common, gen
     from ..common import Finding
     from . import c01
-    sel = lambda c: c.startswith("WaitMatch.convert")
+    # "nothing else changed" has to survive the joins made after the wait was built: a later join that edits a state it was not given
+    # (e.g. through a symbol list shared between a transition and its copy) takes the wait's restart transitions apart
+    sel = lambda c: c.startswith("WaitMatch.convert") or c == "DFA.append_after/frame"
     rep, outs = R.run_contracts("C16", sel, ["WaitMatch.convert"], ["dfa"], "join", TEXT, ["WaitMatch.convert"])
     # per-iteration contract of the retargeting loop, discharged from the real AST for an arbitrary (state, transition) pair (pyvc); the
     # inner machines of literal patterns hand over only fall-through error transitions to the handler (chain shape, proved as well)
@@ -28,6 +30,13 @@ def main():
     from ..pyvc.driver import Program
     nm = common.load_nmfu()
     leaf_proofs.run(rep, "C16", ["WaitMatch", "pointing_to", "DirectMatch", "CaseDirectMatch"], nm, Program(nm, common.repo_source()))
+    # an optional that begins with a wait holds *copies* of the wait's first transitions: the copy must own its symbol and action lists
+    # (DFTransition.copy, proved for all symbol / action segments), or a later join edits the wait's restart transitions through the copy
+    try:
+        from . import c01_proofs
+        c01_proofs._transition_copy(rep, nm, Program(nm, common.repo_source()), "C16")
+    except Exception as e:
+        rep.unavailable("C16/pyvc/DFTransition.copy/engine", f"{type(e).__name__}: {e}")
     # the compiled (optimised) parsers on the wait programs
     ps = [{"name": p["name"], "src": p["src"]} for p in gen.wait_programs()]
     thorough = common.tier() == "thorough"
